@@ -3,7 +3,7 @@
 (*                                                                                                              *)
 (*  pkg/font/metrics.go                                                                                         *)
 (*    userFontMetrics (map)            -> map      guarded by userFontMetricsLock (RWMutex) -> rwW / rwR        *)
-(*    loadUserFontsOnce (sync.Once)    -> once                                                                  *)
+(*    loadUserFontsOnce (sync.Once)    -> once (done flag) + onceMu (the Once's internal mutex)                  *)
 (*    loadUserFontsMutex               -> mu                                                                    *)
 (*    LoadUserFonts   : mu.Lock ; once.Do(doLoadUserFonts) ; mu.Unlock                 l_lock .. l_unlock       *)
 (*    ReloadUserFonts : mu.Lock ; doLoadUserFonts ; once.Do(nop) ; mu.Unlock           w_lock .. w_unlock       *)
@@ -29,6 +29,7 @@
 (*                  completed before the lookup was called                                                      *)
 (*   NoRace         no two processes are simultaneously about to access the same plain variable, one writing    *)
 (*   LockSanity     mutual exclusion of the modelled mutexes                                                    *)
+(*   NoStuck        no operation blocks forever: every state without successor is the terminal one              *)
 (* Break # "none" weakens the model on purpose; TLC must then find a violation (checked on every run).          *)
 EXTENDS ConcModel, Sequences, TLC
 
@@ -36,7 +37,7 @@ CONSTANTS Readers, Reloaders,   \* sets of model values
           OpsR, OpsW,           \* operations per reader / reloader
           MaxGen,               \* the environment installs generations 1..MaxGen after generation 0
           Discipline,           \* BOOLEAN, see above
-          Break                 \* "none" | "publish_early" | "late_disable" | "no_rlock"
+          Break                 \* "none" | "publish_early" | "late_disable" | "no_rlock" | "once_outside"
 
 Workers == Readers \cup Reloaders
 Procs   == Workers \cup {"main"}
@@ -44,10 +45,10 @@ Procs   == Workers \cup {"main"}
 (* generation table: a common font 0 and one font of its own per generation (the harness uses 1 + 2) *)
 Fonts == [g \in 0..MaxGen |-> {0, g + 1}]
 
-VARIABLES pc, left, mu, once, rwW, rwR, map, dir, loading, result, cfgMu, configPath, logger, spawned,
+VARIABLES pc, left, mu, once, onceMu, rwW, rwR, map, dir, loading, result, cfgMu, configPath, logger, spawned,
           abs, pubs, minVer, readVer, readOK
 
-vars == <<pc, left, mu, once, rwW, rwR, map, dir, loading, result, cfgMu, configPath, logger, spawned,
+vars == <<pc, left, mu, once, onceMu, rwW, rwR, map, dir, loading, result, cfgMu, configPath, logger, spawned,
           abs, pubs, minVer, readVer, readOK>>
 
 None == "none"
@@ -59,7 +60,7 @@ NextMain(l) == LET i == CHOOSE k \in 1..Len(MainProg) : MainProg[k] = l IN MainP
 
 Init == /\ pc = [p \in Procs |-> IF p = "main" THEN MainProg[1] ELSE "idle"]
         /\ left = [p \in Workers |-> IF p \in Readers THEN OpsR ELSE OpsW]
-        /\ mu = None /\ once = FALSE /\ rwW = None /\ rwR = {}
+        /\ mu = None /\ once = FALSE /\ onceMu = None /\ rwW = None /\ rwR = {}
         /\ map = {} /\ dir = 0
         /\ loading = [p \in Workers |-> NoGen]
         /\ result = [p \in Readers |-> {}]
@@ -77,27 +78,27 @@ Main == /\ pc["main"] # "m_done"
              [] pc["main"] = "m_setlog" -> logger' = "set" /\ UNCHANGED <<cfgMu, configPath, spawned>>
              [] pc["main"] = "m_spawn"  -> spawned' = TRUE /\ UNCHANGED <<cfgMu, configPath, logger>>
         /\ Goto("main", NextMain(pc["main"]))
-        /\ UNCHANGED <<left, mu, once, rwW, rwR, map, dir, loading, result, abs, pubs, minVer, readVer, readOK>>
+        /\ UNCHANGED <<left, mu, once, onceMu, rwW, rwR, map, dir, loading, result, abs, pubs, minVer, readVer, readOK>>
 
 \* ---------------------------------------------------------------- doLoadUserFonts
-AfterLoad(p) == IF p \in Readers THEN "l_setonce" ELSE "w_once"
+AfterLoad(p) == IF p \in Readers THEN (IF Break = "once_outside" THEN "l_unlock" ELSE "l_setonce") ELSE "w_once"
 InLoad(p)    == pc[p] \in {"d_lock", "d_clear", "d_fill", "d_unlock"}
 
 DRead(p) == /\ pc[p] = "d_read"
             /\ loading' = [loading EXCEPT ![p] = dir]
             /\ Goto(p, "d_lock")
-            /\ UNCHANGED <<left, mu, once, rwW, rwR, map, dir, result, cfgMu, configPath, logger, spawned, abs, pubs, minVer, readVer, readOK>>
+            /\ UNCHANGED <<left, mu, once, onceMu, rwW, rwR, map, dir, result, cfgMu, configPath, logger, spawned, abs, pubs, minVer, readVer, readOK>>
 
 DLock(p) == /\ pc[p] = "d_lock"
             /\ rwW = None /\ rwR = {}
             /\ rwW' = p
             /\ Goto(p, "d_clear")
-            /\ UNCHANGED <<left, mu, once, rwR, map, dir, loading, result, cfgMu, configPath, logger, spawned, abs, pubs, minVer, readVer, readOK>>
+            /\ UNCHANGED <<left, mu, once, onceMu, rwR, map, dir, loading, result, cfgMu, configPath, logger, spawned, abs, pubs, minVer, readVer, readOK>>
 
 DClear(p) == /\ pc[p] = "d_clear"
              /\ map' = {}
              /\ Goto(p, IF Break = "publish_early" THEN "d_unlock" ELSE "d_fill")
-             /\ UNCHANGED <<left, mu, once, rwW, rwR, dir, loading, result, cfgMu, configPath, logger, spawned, abs, pubs, minVer, readVer, readOK>>
+             /\ UNCHANGED <<left, mu, once, onceMu, rwW, rwR, dir, loading, result, cfgMu, configPath, logger, spawned, abs, pubs, minVer, readVer, readOK>>
 
 DFill(p) == /\ pc[p] = "d_fill"
             /\ IF map = Fonts[loading[p]]
@@ -105,7 +106,7 @@ DFill(p) == /\ pc[p] = "d_fill"
                     /\ UNCHANGED map
                ELSE /\ \E f \in Fonts[loading[p]] \ map : map' = map \cup {f}
                     /\ UNCHANGED pc
-            /\ UNCHANGED <<left, mu, once, rwW, rwR, dir, loading, result, cfgMu, configPath, logger, spawned, abs, pubs, minVer, readVer, readOK>>
+            /\ UNCHANGED <<left, mu, once, onceMu, rwW, rwR, dir, loading, result, cfgMu, configPath, logger, spawned, abs, pubs, minVer, readVer, readOK>>
 
 (* the publish point: the abstract cache takes the directory's generation *)
 DUnlock(p) == /\ pc[p] = "d_unlock"
@@ -113,7 +114,7 @@ DUnlock(p) == /\ pc[p] = "d_unlock"
               /\ abs' = ReloadOp(abs)
               /\ pubs' = Append(pubs, loading[p])
               /\ Goto(p, IF map = Fonts[loading[p]] THEN AfterLoad(p) ELSE "d_fill")
-              /\ UNCHANGED <<left, mu, once, rwR, map, dir, loading, result, cfgMu, configPath, logger, spawned, minVer, readVer, readOK>>
+              /\ UNCHANGED <<left, mu, once, onceMu, rwR, map, dir, loading, result, cfgMu, configPath, logger, spawned, minVer, readVer, readOK>>
 
 DoLoad(p) == DRead(p) \/ DLock(p) \/ DClear(p) \/ DFill(p) \/ DUnlock(p)
 
@@ -122,38 +123,64 @@ RStart(p) == /\ pc[p] = "idle" /\ spawned /\ left[p] > 0
              /\ left' = [left EXCEPT ![p] = @ - 1]
              /\ minVer' = [minVer EXCEPT ![p] = Len(pubs)]
              /\ Goto(p, "conf")
-             /\ UNCHANGED <<mu, once, rwW, rwR, map, dir, loading, result, cfgMu, configPath, logger, abs, pubs, spawned, readVer, readOK>>
+             /\ UNCHANGED <<mu, once, onceMu, rwW, rwR, map, dir, loading, result, cfgMu, configPath, logger, abs, pubs, spawned, readVer, readOK>>
+
+(* sync.Once = a done flag (once) + an internal mutex (onceMu): Do(f) returns at once when done; otherwise it takes     *)
+(* onceMu, re-checks done, runs f, sets done, releases onceMu.                                                          *)
+(* Inv (Break = "once_outside"): LoadUserFonts enters the Once FIRST and takes loadUserFontsMutex inside the callback,  *)
+(* then reads the load error under a read lock - while ReloadUserFonts keeps the order mutex -> Once: lock-order        *)
+(* inversion, the model deadlocks when the first lookup overlaps a reload (NoStuck is refuted by TLC).                  *)
+Inv == Break = "once_outside"
 
 (* an API operation starts by reading model.ConfigPath (NewDefaultConfiguration) and the logger pointers *)
 RConf(p) == /\ pc[p] = "conf"
-            /\ Goto(p, "l_lock")
-            /\ UNCHANGED <<left, mu, once, rwW, rwR, map, dir, loading, result, cfgMu, configPath, logger, spawned, abs, pubs, minVer, readVer, readOK>>
+            /\ Goto(p, IF Inv THEN "l_once" ELSE "l_lock")
+            /\ UNCHANGED <<mu, once, onceMu, left, rwW, rwR, map, dir, loading, result, cfgMu, configPath, logger, spawned, abs, pubs, minVer, readVer, readOK>>
 
 LLock(p) == /\ pc[p] = "l_lock" /\ mu = None
             /\ mu' = p
-            /\ Goto(p, "l_once")
-            /\ UNCHANGED <<left, once, rwW, rwR, map, dir, loading, result, cfgMu, configPath, logger, spawned, abs, pubs, minVer, readVer, readOK>>
+            /\ Goto(p, IF Inv THEN "d_read" ELSE "l_once")
+            /\ UNCHANGED <<once, onceMu, left, rwW, rwR, map, dir, loading, result, cfgMu, configPath, logger, spawned, abs, pubs, minVer, readVer, readOK>>
 
 LOnce(p) == /\ pc[p] = "l_once"
-            /\ Goto(p, IF once THEN "l_unlock" ELSE "d_read")
-            /\ UNCHANGED <<left, mu, once, rwW, rwR, map, dir, loading, result, cfgMu, configPath, logger, spawned, abs, pubs, minVer, readVer, readOK>>
+            /\ Goto(p, IF once THEN (IF Inv THEN "e_read" ELSE "l_unlock") ELSE "o_lock")
+            /\ UNCHANGED <<mu, once, onceMu, left, rwW, rwR, map, dir, loading, result, cfgMu, configPath, logger, spawned, abs, pubs, minVer, readVer, readOK>>
+
+OLock(p) == /\ pc[p] = "o_lock" /\ onceMu = None
+            /\ onceMu' = p
+            /\ Goto(p, "o_check")
+            /\ UNCHANGED <<mu, once, left, rwW, rwR, map, dir, loading, result, cfgMu, configPath, logger, spawned, abs, pubs, minVer, readVer, readOK>>
+
+OCheck(p) == /\ pc[p] = "o_check"
+             /\ Goto(p, IF once THEN "o_rel" ELSE (IF Inv THEN "l_lock" ELSE "d_read"))
+             /\ UNCHANGED <<mu, once, onceMu, left, rwW, rwR, map, dir, loading, result, cfgMu, configPath, logger, spawned, abs, pubs, minVer, readVer, readOK>>
+
+ORel(p) == /\ pc[p] = "o_rel"
+           /\ onceMu' = None
+           /\ Goto(p, IF Inv THEN "e_read" ELSE "l_unlock")
+           /\ UNCHANGED <<mu, once, left, rwW, rwR, map, dir, loading, result, cfgMu, configPath, logger, spawned, abs, pubs, minVer, readVer, readOK>>
 
 LSetOnce(p) == /\ pc[p] = "l_setonce"
-               /\ once' = TRUE
+               /\ once' = TRUE /\ onceMu' = None
                /\ loading' = [loading EXCEPT ![p] = NoGen]
-               /\ Goto(p, "l_unlock")
+               /\ Goto(p, IF Inv THEN "e_read" ELSE "l_unlock")
                /\ UNCHANGED <<left, mu, rwW, rwR, map, dir, result, cfgMu, configPath, logger, spawned, abs, pubs, minVer, readVer, readOK>>
 
 LUnlock(p) == /\ pc[p] = "l_unlock"
               /\ mu' = None
-              /\ Goto(p, "k_rlock")
-              /\ UNCHANGED <<left, once, rwW, rwR, map, dir, loading, result, cfgMu, configPath, logger, spawned, abs, pubs, minVer, readVer, readOK>>
+              /\ Goto(p, IF Inv THEN "l_setonce" ELSE "k_rlock")
+              /\ UNCHANGED <<once, onceMu, left, rwW, rwR, map, dir, loading, result, cfgMu, configPath, logger, spawned, abs, pubs, minVer, readVer, readOK>>
+
+(* Inv only: the recorded load error is read under a read lock of the (RW) load mutex *)
+ERead(p) == /\ pc[p] = "e_read" /\ mu = None
+            /\ Goto(p, "k_rlock")
+            /\ UNCHANGED <<mu, once, onceMu, left, rwW, rwR, map, dir, loading, result, cfgMu, configPath, logger, spawned, abs, pubs, minVer, readVer, readOK>>
 
 KRLock(p) == /\ pc[p] = "k_rlock"
              /\ (Break = "no_rlock" \/ rwW = None)
              /\ rwR' = IF Break = "no_rlock" THEN rwR ELSE rwR \cup {p}
              /\ Goto(p, "k_read")
-             /\ UNCHANGED <<left, mu, once, rwW, map, dir, loading, result, cfgMu, configPath, logger, spawned, abs, pubs, minVer, readVer, readOK>>
+             /\ UNCHANGED <<left, mu, once, onceMu, rwW, map, dir, loading, result, cfgMu, configPath, logger, spawned, abs, pubs, minVer, readVer, readOK>>
 
 (* the read point of the lookup: the abstract model (ConcModel) says it returns Fonts[abs.cache] *)
 KRead(p) == /\ pc[p] = "k_read"
@@ -161,38 +188,39 @@ KRead(p) == /\ pc[p] = "k_read"
             /\ readVer' = [readVer EXCEPT ![p] = Len(pubs)]
             /\ readOK' = [readOK EXCEPT ![p] = Loaded(abs) /\ map = NamesOf(abs, Fonts)]
             /\ Goto(p, "k_runlock")
-            /\ UNCHANGED <<left, mu, once, rwW, rwR, map, dir, loading, cfgMu, configPath, logger, spawned, abs, pubs, minVer>>
+            /\ UNCHANGED <<left, mu, once, onceMu, rwW, rwR, map, dir, loading, cfgMu, configPath, logger, spawned, abs, pubs, minVer>>
 
 KRUnlock(p) == /\ pc[p] = "k_runlock"
                /\ rwR' = rwR \ {p}
                /\ Goto(p, "idle")
                /\ result' = [result EXCEPT ![p] = {}]       \* the values were judged while pc = "k_runlock"
                /\ minVer' = [minVer EXCEPT ![p] = 0] /\ readVer' = [readVer EXCEPT ![p] = 0] /\ readOK' = [readOK EXCEPT ![p] = TRUE]
-               /\ UNCHANGED <<left, mu, once, rwW, map, dir, loading, cfgMu, configPath, logger, spawned, abs, pubs>>
+               /\ UNCHANGED <<left, mu, once, onceMu, rwW, map, dir, loading, cfgMu, configPath, logger, spawned, abs, pubs>>
 
-Reader(p) == RStart(p) \/ RConf(p) \/ LLock(p) \/ LOnce(p) \/ LSetOnce(p) \/ LUnlock(p) \/ KRLock(p) \/ KRead(p) \/ KRUnlock(p) \/ DoLoad(p)
+Reader(p) == RStart(p) \/ RConf(p) \/ LLock(p) \/ LOnce(p) \/ OLock(p) \/ OCheck(p) \/ ORel(p) \/ LSetOnce(p) \/ LUnlock(p) \/ ERead(p) \/ KRLock(p) \/ KRead(p) \/ KRUnlock(p) \/ DoLoad(p)
 
 \* ---------------------------------------------------------------- reloads
 WStart(p) == /\ pc[p] = "idle" /\ spawned /\ left[p] > 0
              /\ left' = [left EXCEPT ![p] = @ - 1]
              /\ Goto(p, "w_lock")
-             /\ UNCHANGED <<mu, once, rwW, rwR, map, dir, loading, result, cfgMu, configPath, logger, spawned, abs, pubs, minVer, readVer, readOK>>
+             /\ UNCHANGED <<mu, once, onceMu, rwW, rwR, map, dir, loading, result, cfgMu, configPath, logger, spawned, abs, pubs, minVer, readVer, readOK>>
 
 WLock(p) == /\ pc[p] = "w_lock" /\ mu = None
             /\ mu' = p
             /\ Goto(p, "d_read")
-            /\ UNCHANGED <<left, once, rwW, rwR, map, dir, loading, result, cfgMu, configPath, logger, spawned, abs, pubs, minVer, readVer, readOK>>
+            /\ UNCHANGED <<left, once, onceMu, rwW, rwR, map, dir, loading, result, cfgMu, configPath, logger, spawned, abs, pubs, minVer, readVer, readOK>>
 
 WOnce(p) == /\ pc[p] = "w_once"
+            /\ (once \/ onceMu = None)         \* once.Do(func(){}): blocks while another goroutine is inside the Once
             /\ once' = TRUE
             /\ loading' = [loading EXCEPT ![p] = NoGen]
             /\ Goto(p, "w_unlock")
-            /\ UNCHANGED <<left, mu, rwW, rwR, map, dir, result, cfgMu, configPath, logger, spawned, abs, pubs, minVer, readVer, readOK>>
+            /\ UNCHANGED <<left, mu, onceMu, rwW, rwR, map, dir, result, cfgMu, configPath, logger, spawned, abs, pubs, minVer, readVer, readOK>>
 
 WUnlock(p) == /\ pc[p] = "w_unlock"
               /\ mu' = None
               /\ Goto(p, "idle")
-              /\ UNCHANGED <<left, once, rwW, rwR, map, dir, loading, result, cfgMu, configPath, logger, spawned, abs, pubs, minVer, readVer, readOK>>
+              /\ UNCHANGED <<left, once, onceMu, rwW, rwR, map, dir, loading, result, cfgMu, configPath, logger, spawned, abs, pubs, minVer, readVer, readOK>>
 
 Reloader(p) == WStart(p) \/ WLock(p) \/ WOnce(p) \/ WUnlock(p) \/ DoLoad(p)
 
@@ -201,7 +229,7 @@ SetDir == /\ spawned /\ dir < MaxGen
           /\ (Discipline => \A p \in Workers : ~InLoad(p))
           /\ dir' = dir + 1
           /\ abs' = SetDirOp(abs, dir + 1)
-          /\ UNCHANGED <<pc, left, mu, once, rwW, rwR, map, loading, result, cfgMu, configPath, logger, spawned, pubs, minVer, readVer, readOK>>
+          /\ UNCHANGED <<pc, left, mu, once, onceMu, rwW, rwR, map, loading, result, cfgMu, configPath, logger, spawned, pubs, minVer, readVer, readOK>>
 
 Next == Main \/ SetDir \/ (\E p \in Readers : Reader(p)) \/ (\E p \in Reloaders : Reloader(p))
 
@@ -224,7 +252,8 @@ Access(p) == CASE pc[p] = "m_write"  -> {<<"configPath", "w">>}
                [] pc[p] = "conf"     -> {<<"configPath", "r">>, <<"logger", "r">>}
                [] pc[p] \in {"d_clear", "d_fill"} -> {<<"map", "w">>}
                [] pc[p] = "k_read"   -> {<<"map", "r">>}
-               [] pc[p] \in {"l_once", "l_setonce", "w_once"} -> {<<"loadErr", "w">>}
+               [] pc[p] \in {"l_setonce", "w_once"} -> {<<"loadErr", "w">>}
+               [] pc[p] \in {"l_once", "e_read"} -> {<<"loadErr", "r">>}
                [] OTHER -> {}
 
 Conflict(p, q) == \E a \in Access(p), b \in Access(q) : a[1] = b[1] /\ (a[2] = "w" \/ b[2] = "w")
@@ -232,7 +261,9 @@ Conflict(p, q) == \E a \in Access(p), b \in Access(q) : a[1] = b[1] /\ (a[2] = "
 NoRace == \A p, q \in Procs : p # q => ~Conflict(p, q)
 
 LockSanity == /\ (rwW # None => rwR = {})
-              /\ \A p \in Workers : pc[p] \in {"l_once", "l_setonce", "l_unlock", "w_once", "w_unlock", "d_read", "d_lock", "d_clear", "d_unlock"} => mu = p
+              /\ \A p \in Workers : pc[p] \in {"w_once", "w_unlock", "d_read", "d_lock", "d_clear", "d_unlock"} => mu = p
+              /\ (~Inv => \A p \in Workers : pc[p] \in {"l_once", "o_lock", "o_check", "o_rel", "l_setonce", "l_unlock"} => mu = p)
+              /\ \A p \in Workers : pc[p] \in {"o_check", "o_rel", "l_setonce"} => onceMu = p
               /\ \A p \in Workers : pc[p] \in {"d_clear"} => rwW = p
 
 (* every operation finishes: the only terminal states are the ones where every program is done *)
